@@ -5,7 +5,7 @@ shared kwargs dict explicit) and Model/SessSpec.lean (`Spec.dispatch`). Tie and 
 (vlib/sesscheck.py, vlib/wamp.py, harness/workers/sess_worker.py), with histories of subscribe / SUBSCRIBED / ERROR /
 unsubscribe / UNSUBSCRIBED / EVENT and scripted handler behaviour.
 
-Self-test (mutations of a scratch copy, VERIF_REPO; outcomes recorded at the end of harness/c04.py).
+Self-test: mutations M5, M6 and harmless rewrite H2, recorded in the docstring of harness/c04.py.
 """
 import itertools
 
@@ -148,15 +148,18 @@ def rand_act(P, rng, objs, own=None):
     return "r+call,1,a,k,n,ok"
 
 
-def random_history(rng, pump):
+def random_history(rng, pump, safe=False):
+    """safe: stays outside the two known defect shapes (one details_arg for all handlers, no synchronous unsubscribe),
+    so that later divergences of the same history are not masked by them"""
     P = sc.Planner(rng, pump=pump).start(sid=rng.randint(1, 2 ** 53))
     ids = [77, 78]
+    one = rng.choice(DETAILS)
     for sid in ids[:rng.randint(1, 2)]:
         nh = rng.randint(1, 4)
         order = list(range(nh))
         rng.shuffle(order)
         errors = [j for j in range(nh) if rng.random() < 0.1]
-        attach(P, rng, sid, [rng.choice(DETAILS) for _ in range(nh)], topic=rng.choice([9, 9, 8]), order=order, errors=errors)
+        attach(P, rng, sid, [one if safe else rng.choice(DETAILS) for _ in range(nh)], topic=rng.choice([9, 9, 8]), order=order, errors=errors)
     for _ in range(rng.randint(2, 10)):
         x = rng.random()
         live = [o for l in P.subs.values() for o in l]
@@ -164,6 +167,8 @@ def random_history(rng, pump):
             sid = rng.choice(list(P.subs) + [99]) if P.subs else 99
             n = len(P.subs.get(sid, []))
             acts = [rand_act(P, rng, live) for _ in range(n)] if rng.random() < 0.7 else []
+            if safe:
+                acts = [a if "self" not in a and "unsub," not in a else a[0] for a in acts]
             event(P, rng, sid, acts=acts)
         elif x < 0.65 and live:
             P.unsubscribe(rng.choice(live))
@@ -178,7 +183,7 @@ def random_history(rng, pump):
                 else:
                     P.error(r)
         else:
-            attach(P, rng, rng.choice(ids), [rng.choice(DETAILS)], topic=rng.choice([9, 8]))
+            attach(P, rng, rng.choice(ids), [one if safe else rng.choice(DETAILS)], topic=rng.choice([9, 8]))
     if pump != "always":
         P.ev.append("pump")
     return P.script()
@@ -245,8 +250,10 @@ def gen(ctx):
                 event(P, rng, 77, args="a1", kwargs="n")
                 out.append(("replies%d" % nh, P.script()))
     # (e) random histories
-    for _ in range(1200 if quick else 50000):
-        out.append(("random", random_history(rng, rng.choice(["always", "always", "random", "never"]))))
+    for j in range(1200 if quick else 100000):
+        safe = j % 2 == 1
+        out.append(("random-safe" if safe else "random",
+                    random_history(rng, rng.choice(["always", "always", "random", "never"]), safe=safe)))
     return out
 
 
